@@ -619,6 +619,33 @@ pub fn c04_fixed_tx<S: Src>(_s: &mut S) {
         }
         Err(_) => failures.push("fixture witness set does not load".into()),
     }
+    // every witness-set key on its own and all together, each field in a non-canonical form (untagged legacy array or
+    // indefinite array): loading and re-serializing the fixed transaction returns the witness-set bytes verbatim
+    {
+        let vk = format!("8258{:02x}{}58{:02x}{}", 32, "09".repeat(32), 64, "07".repeat(64));
+        let boot = format!("8458{:02x}{}58{:02x}{}58{:02x}{}41a0", 32, "09".repeat(32), 64, "07".repeat(64), 32, "03".repeat(32));
+        let fields: Vec<(u8, String)> = vec![
+            (0, format!("81{}", vk)), (1, "9f8200581c11111111111111111111111111111111111111111111111111111111ff".to_string()), (2, format!("9f{}ff", boot)),
+            (3, "8143010203".to_string()), (4, "9f0102ff".to_string()), (5, "9f840000419182 0101ff".replace(" ", "")), (6, "9f43040506ff".to_string()), (7, "8143070809".to_string())];
+        let mut cases: Vec<Vec<usize>> = (0..fields.len()).map(|i| vec![i]).collect();
+        cases.push((0..fields.len()).collect());
+        cases.push(vec![6, 7]); cases.push(vec![3, 7]);
+        for c in &cases {
+            let mut w = format!("a{:x}", c.len());
+            for &i in c { w += &format!("{:02x}{}", fields[i].0, fields[i].1); }
+            let wsb = unhex(&w);
+            match FixedTransaction::new(&body1, &wsb, true) {
+                Ok(tx) => {
+                    let out = tx.to_bytes();
+                    for &i in c {
+                        let fb = unhex(&format!("{:02x}{}", fields[i].0, fields[i].1));
+                        if !out.windows(fb.len()).any(|x| x == &fb[..]) { failures.push(format!("witness-set field {} (given in non-canonical form together with keys {:?}) is not written back verbatim under its key", fields[i].0, c.iter().map(|&j| fields[j].0).collect::<Vec<_>>())); }
+                    }
+                }
+                Err(_) => failures.push(format!("fixture witness set with keys {:?} does not load", c.iter().map(|&i| fields[i].0).collect::<Vec<_>>())),
+            }
+        }
+    }
     // datum bytes: decoded datum re-encodes to the same bytes (non-canonical forms)
     for hx in ["9f0102ff", "d8669f18c880ff", "d8668218c880", "d87a9f01ff", "bf0102ff", "5f42010243030405ff", "1903e8", "c249010000000000000000", "d905019f00ff"] {
         let b = unhex(hx);
